@@ -160,7 +160,7 @@ class Ctx:
         return c
 
 
-FIELD_SORTS = {"int": IntSort(), "bool": BoolSort(), "seqv": Sq}
+FIELD_SORTS = {"int": IntSort(), "bool": BoolSort(), "seqv": Sq, "setv": SetS}
 
 
 def type_hint(ty):
@@ -756,6 +756,8 @@ def _patch_engine():
             return SV("bool", t)
         if ty == "seqv":
             return SV("seq", t)
+        if ty == "setv":
+            return SV("set", t)
         return SV("v", t, hint)
     E.read_field = read_field
 
@@ -2132,6 +2134,8 @@ def _patch_exec():
                     val = self.as_int(sv)
                 elif ty == "seqv":
                     val = self.as_seq(sv, st2)
+                elif ty == "setv":
+                    val = self.as_set(sv, st2)        # a ghost field holding a set VALUE
                 elif ty == "bool":
                     val = self.truth(sv, st2) if sv.kind != "bool" else sv.t
                 else:
@@ -3653,9 +3657,30 @@ def _patch_calls():
             label = fnc.qualname
         snap_state = post.copy(env=dict(post.env, **{"$result": res}))
         post = post.copy(ghost=dict(post.ghost, **{"$after:" + label: snap_state}))
-        if self.c.monitor and label in self.c.monitor.get("calls", []) and not post.ghost.get("$lockdepth"):
-            post = self.interfere(post, node, "after-call")
-        k(res, post)
+        def finish(post2):
+            if self.c.monitor and label in self.c.monitor.get("calls", []) and not post2.ghost.get("$lockdepth"):
+                post2 = self.interfere(post2, node, "after-call")
+            k(res, post2)
+        gcall = (getattr(self.c, "ghost_call", None) or {}).get(label)
+        if gcall:
+            # ghost statements executed atomically with the callee's effect (before other threads can interfere); `_r` = the result
+            stmts = [ast.parse(g).body[0] for g in gcall]
+            for g in stmts:
+                ast.copy_location(g, node)
+                ast.fix_missing_locations(g)
+            saved_after, mon = self.c.ghost_after, self.c.monitor
+            self.c.ghost_after, self.c.monitor = {}, None
+            def after_ghost(stg):
+                self.c.ghost_after, self.c.monitor = saved_after, mon
+                env = dict(stg.env)
+                env.pop("_r", None)
+                finish(stg.copy(env=env))
+            try:
+                self.ex_block(stmts, post.bind("_r", res), ctx.with_(k=after_ghost))
+            finally:
+                self.c.ghost_after, self.c.monitor = saved_after, mon
+            return
+        finish(post)
     E.do_contract_call = do_contract_call
 
 
